@@ -8,13 +8,19 @@ NOTE = ("Trusted: Coq 8.16.1 kernel (vm_compute used; no native_compute), the Py
         "translator/xlate.py for generated tables, and the interface models of lxml/CPython named in DESIGN.md section 7. "
         "Axioms per theorem are recorded in the evidence file (Print Assumptions).")
 
+TECH_H = "Coq proof about a hand-written model + differential correspondence"
+TECH_T = "Coq proof over translator-generated tables/programs + differential correspondence"
 CLAIMS = {
- "C02": ("proof", "Generic theorem parse(format acts) = acts with one action per line for all well-formed action lists, instantiated to tables the translator regenerates from DiffFormatter/DiffParser on every run (C02_tables_ok by vm_compute); json/str helper models validated exhaustively over a critical alphabet on every run; round-trip and diff_texts->patch_text pipeline oracles search the implementation.",
-         "Coq proof over translator-generated tables + differential correspondence"),
- "C07": ("proof", "match_valid / match_total / unique-attribute clause proved for every similarity oracle (hence every ratio mode) and all three strategies over the Gallina model of Differ.match; model tied to /repo by differential execution (matching compared pair by pair, node_text and every node_ratio input) on generated and exhaustive small documents.",
-         "Coq proof about a hand-written model + differential correspondence"),
- "C12": ("proof", "Gallina model of utils.longest_common_subsequence; C12_total, C12_valid, C12_maximal proved for arbitrary predicates and lengths; model tied to /repo by differential execution on every 0/1 relation up to 3x3 (4x3 thorough) plus seeded larger ones; DP oracle searches the implementation when the tie breaks.",
-         "Coq proof about a hand-written model + differential correspondence"),
+ "C01": ("proof", "C01_script_sound / C01_every_matching: for every similarity oracle, every option combination (they only select the matching) and documents of any size, the model of Differ.diff returns a script that the documented semantics accepts action by action and that turns L into a document equivalent to R; C01_roundtrip: the patcher programs regenerated from patch.py on every run replay that script (patcher_refines_spec, getpath_unique). Tied to /repo by differential execution of matcher, script generation (action by action), path rendering and patcher, plus an independent strict interpreter and the shipped patch_tree as search oracles. Partial in that lxml/libxml2 (XPath, getpath, prefix choice) is modelled at its interface; namespace declarations below the root and changed default namespaces are recorded known findings.", TECH_H + " (differ) / " + TECH_T + " (patcher)"),
+ "C02": ("proof", "Generic theorem parse(format acts) = acts with one action per line for all well-formed action lists, instantiated to tables the translator regenerates from DiffFormatter/DiffParser on every run (C02_tables_ok by vm_compute); json/str helper models validated exhaustively over a critical alphabet on every run; round-trip and diff_texts->patch_text pipeline oracles search the implementation.", TECH_T),
+ "C03": ("proof", "C03_equal_empty (equal documents give the identity matching and the empty script under every option combination incl. fast_match and best_match, for every similarity oracle satisfying the stated laws), C03_empty_equal / C03_differ_nonempty (converse, from gen_script_sound), C03_formatter_empty. Correspondence as C01; exhaustive tree-vs-copy scope under all option sets.", TECH_H),
+ "C04": ("proof", "C04_getpath_unique (every path the differ renders selects exactly its node under the multi-match evaluator and carries an index), C04_path_roundtrip, C04_patcher_progs_expected (generated patcher programs), C04_patcher_refines_spec, C04_asserts_unreachable, C04_patch_replays_script. The getpath model is compared with lxml's strings on every emitted action of every run. Partial: lxml's prefix choice is a policy oracle (penv); undeclared-at-root namespaces are a recorded known finding.", TECH_H + " / " + TECH_T),
+ "C05": ("proof", "C05_applicable: the script is accepted by the strict interpreter of the documented semantics, with each sentence of the property as a clause on every prefix state (attribute present/absent, positions within 0..#children not counting the moved node, no move into own subtree, delete only of childless nodes); C04_asserts_unreachable covers python -O. Correspondence as C01; independent Python strict interpreter as search oracle.", TECH_H),
+ "C06": ("proof", "PARTIAL PROOF: the object-level state machines are proved (C06_differ_history / _repeat / _trace for any history of clear/set_trees/match/diff calls, C06_patcher_history, C06_formatter_history, C06_iteration_order = hash-seed independence of update_node_attr), over shapes the translator pins on every run and operation-sequence correspondence on single instances. Input non-mutation, lxml's process-global prefix registry and hash seeds are runtime facts a pure model cannot state: they are MONITORED (serialise before/after, adversarial earlier diffs, subprocesses under 5 hash seeds) -- testing, labelled so. Two open known findings (global prefix registry).", TECH_H + " + runtime monitors"),
+ "C07": ("proof", "match_valid / match_total / unique-attribute clause proved for every similarity oracle (hence every ratio mode) and all three strategies over the Gallina model of Differ.match; model tied to /repo by differential execution (matching compared pair by pair, node_text and every node_ratio input) on generated and exhaustive small documents, incl. trees handed over as sub-elements.", TECH_H),
+ "C12": ("proof", "Gallina model of utils.longest_common_subsequence; C12_total, C12_valid, C12_maximal proved for arbitrary predicates and lengths; model tied to /repo by differential execution on every 0/1 relation up to 3x3 (4x3 thorough) plus seeded larger and long permuted sequences; DP oracle searches the implementation when the tie breaks.", TECH_H),
+ "C13": ("proof", "C13_empty (documents differing only in ignored attributes give the empty script), C13_no_mention (no action names an ignored attribute, for every matching), C13_roundtrip (result equals R up to ignored attributes), C13_right_invisible. Correspondence as C01 with ignored-attribute option sets.", TECH_H),
+ "C17": ("proof", "C17_effective (every non-namespace action changes the document: run_checked; alignment moves via LCS maximality), C17_created_not_deleted, C17_bounds (all seven counting bounds), for every valid matching. Correspondence as C01 incl. wide documents; identity-based no-op detection and counts as search oracle.", TECH_H),
 }
 REASON_PENDING = "check not registered yet in this commit: model/correspondence exist or are being built, theorems not yet closed (see DESIGN.md section 9)"
 
